@@ -394,7 +394,7 @@ class SigSuite(Suite):
         return {"id": 0, "lines": lines}
 
     def gen_cases(self, rng, tier):
-        n = 700 if tier == "quick" else 20000
+        n = 4000 if tier == "quick" else 150000
         return [self.gen_case(rng) for _ in range(n)]
 
     def nontrivial(self, case, out):
@@ -441,6 +441,80 @@ class SigSuite(Suite):
         return run_prop(case, out).msgs
 
 
+class RaceSuite(Suite):
+    """real threads: listeners / callbacks subscribe on their own threads while the collector thread emits or destroys
+    the last handle.  No model run (the interleaving is the OS's); the oracle is the property on the canonical summary."""
+    name = "signal-race"
+    harness = HARNESS
+    driver = None
+    compare = False
+    corpus_prefix = "c15race_"
+    chunk = 6
+    nontrivial_rule = "at least two subscriber threads"
+
+    def gen_cases(self, rng, tier):
+        n = 300 if tier == "quick" else 8000
+        cases = []
+        for _ in range(n):
+            nsub = rng.randint(1, 6)
+            ncb = rng.choice([0, 0, 1, 2])
+            if rng.random() < 0.65:
+                hdr = "case 0 race emit %d %d %d %d" % (nsub, ncb, rng.choice([0, 1, 3, 10, 50]), rng.randint(1, 10 ** 6))
+            else:
+                hdr = "case 0 race drop %d %d %d" % (nsub, ncb, rng.randint(1, 10 ** 6))
+            cases.append({"id": 0, "lines": [hdr, "end"]})
+        return cases
+
+    def normalize(self, lines):
+        return [l for l in lines if not l.startswith("#")]
+
+    def nontrivial(self, case, out):
+        w = case["lines"][0].split()
+        return int(w[4]) + int(w[5]) >= 2
+
+    def stats(self, cases, outs):
+        st = {"emit_races": 0, "drop_races": 0, "subscriber_threads": 0, "callback_threads": 0}
+        for c in cases:
+            w = c["lines"][0].split()
+            st["emit_races" if w[3] == "emit" else "drop_races"] += 1
+            st["subscriber_threads"] += int(w[4])
+            st["callback_threads"] += int(w[5])
+        return st
+
+    def oracle(self, case, out):
+        msgs = []
+        w = case["lines"][0].split()
+        nsub, ncb = int(w[4]), int(w[5])
+        seen = set()
+        for l in out:
+            f = l.split()
+            kv = dict(x.split("=") for x in f[1:] if "=" in x)
+            if f[0] == "end":
+                seen.add("end")
+                if kv.get("live") != "0":
+                    msgs.append("hang: %s listener coroutine(s) never resumed after the last handle was destroyed" % kv.get("live"))
+                continue
+            seen.add(f[0])
+            if kv.get("contiguous") != "1":
+                msgs.append("missed: %s observed a sequence with a gap, a duplicate or out of order although it only re-awaits" % f[0])
+            if kv.get("upto_last") != "1":
+                msgs.append("missed: %s did not observe the values up to the last one emitted" % f[0])
+            if kv.get("inrange") != "1":
+                msgs.append("wrong-value: %s observed a value that was never emitted" % f[0])
+            if f[0].startswith("L"):
+                if kv.get("canceled") != "1":
+                    msgs.append("hang: %s observed %s cancellations at disconnection instead of exactly one" % (f[0], kv.get("canceled")))
+                if kv.get("after_cancel") != "0":
+                    msgs.append("duplicate: %s observed a value after the cancellation" % f[0])
+            else:
+                if kv.get("frees") != "1" or kv.get("live") != "0":
+                    msgs.append("callback-release: %s released %s times, %s instances alive" % (f[0], kv.get("frees"), kv.get("live")))
+        want = {"L%d" % i for i in range(nsub)} | {"C%d" % i for i in range(ncb)} | {"end"}
+        if seen != want:
+            msgs.append("harness: missing summary lines %s" % sorted(want - seen))
+        return msgs
+
+
 def script_nogate(rng):
     return rng.choice(["-", "x", "rx", "rrx", "-"])
 
@@ -470,7 +544,7 @@ class C15(Spec):
                    "callbacks do not throw and do not call the collector re-entrantly"]
 
     def suites(self):
-        return [SigSuite()]
+        return [SigSuite(), RaceSuite()]
 
 
 SPEC = C15()
